@@ -53,6 +53,8 @@ ASSUMPTIONS = [
     'outside the domain: sinks are installed before any data is written, nothing is written from the '
     'connection handler',
     '"eventually" = no stall of the virtual loop and completion within a virtual-time horizon of 3600 s',
+    'B, at quiescence after a completed run: LeCreditBasedChannel.credits of every Bumble endpoint equals the peer\'s record '
+    '(initial credits + credits granted in credit packets - K-frames received)',
     'credit ledger per sending host: credits = initial (from the signalling PDUs seen at that host) + credits of '
     'received L2CAP_LE_Flow_Control_Credit frames - K-frames handed to Host.send_acl_sdu, in the exact order the '
     'host saw/produced them; must be > 0 when a K-frame is produced',
@@ -430,7 +432,9 @@ def b_case(draw, caps):
         script.append(['w', 0, draw(wsize)])
     early = [draw(st.sampled_from([0, 0, 1, 3, 40, 5000])) for _ in range(n)] if role == 'bumble_initiates' else [0] * n
     early = [min(e, 65535 - peer[2]) for e in early]
-    low = draw(st.one_of(st.just(0), st.just(0), st.integers(0, max(0, min(peer[2] - 1, 12))), st.just(max(0, peer[2] // 2))))
+    # low-water mark; peer[2] - 1 = every credit is returned at once, the balance comes back to exactly the initial value
+    low = draw(st.one_of(st.just(0), st.just(0), st.integers(0, max(0, min(peer[2] - 1, 12))), st.just(max(0, peer[2] // 2)),
+                         st.just(max(0, peer[2] - 1))))
     return {
         'kind': 'B', 'variant': variant, 'role': role, 'n': n, 'bumble': bumble, 'peer': peer,
         'plan': plan, 'cids': cids,
@@ -1118,6 +1122,18 @@ def run_b(ctx, case) -> None:
                         fail(f'{tag}/stream/peer_to_bumble_mismatch', f'channel {k}: {v[1]}')
                     else:
                         inc_s.append((k, v[1]))
+            # -- credit balance at quiescence: what Bumble believes it may still send == what the peer granted and has not
+            #    seen used (a lost grant starves the sender later on, an invented one sends without a credit)
+            if full and not inc_w and not inc_s and len(s.get('bchans') or []) == n:
+                for k in range(n):
+                    believed, granted = s['bchans'][k].credits, peer.chans[k].ledger
+                    if believed != granted:
+                        fail(f'{tag}/credits/balance_' + ('lost' if believed < granted else 'invented'),
+                             f'channel {k} at quiescence: Bumble holds {believed} credit(s), the peer granted {peer.chans[k].initial} '
+                             f'initially plus {granted - peer.chans[k].initial + peer.chans[k].rx_frames} in credit packets and '
+                             f'received {peer.chans[k].rx_frames} K-frame(s), i.e. {granted} are outstanding')
+                        break
+                labels.add('B:credit_balance_compared')
             # -- progress
             if outcome != 'done' or inc_w or inc_s:
                 if inc_w:
